@@ -20,7 +20,9 @@ UNITS = [src('base', 'src', 'ProblemDefinition.cpp'), src('base', 'src', 'Optimi
          src(G + 'prm/src/SPARStwo.cpp'), src(G + 'informedtrees/src/BITstar.cpp'),
          src(G + 'informedtrees/src/AITstar.cpp'), src(G + 'informedtrees/src/EITstar.cpp'),
          src(G + 'cforest/src/CForest.cpp'), src(G + 'AnytimePathShortening.cpp'), src(G + 'rrt/src/LBTRRT.cpp'),
-         src(G + 'rrt/src/LazyLBTRRT.cpp')]
+         src(G + 'rrt/src/LazyLBTRRT.cpp'), src(G + 'sst/src/SST.cpp'), src(G + 'fmt/src/FMT.cpp'), src(G + 'fmt/src/BFMT.cpp'),
+         src(G + 'informedtrees/bitstar/src/Vertex.cpp'), src(G + 'informedtrees/aitstar/src/Vertex.cpp'),
+         src(G + 'informedtrees/eitstar/src/Vertex.cpp'), src(G + 'informedtrees/eitstar/src/State.cpp')]
 
 OO = 'ompl::base::OptimizationObjective::'
 
@@ -748,6 +750,220 @@ def _is_param_fresh(f, bk):
     return False
 
 
+def _stores(f, root):
+    out = []
+    for y in f.walk(root):
+        t = r = None
+        if y['k'] == 'BinaryOperator' and y.get('op') == '=':
+            t, r = y['ch']
+        elif y['k'] == 'CXXOperatorCallExpr' and y.get('oop') == '=' and len(y['ch']) == 2:
+            t, r = y['ch']
+        if t is not None:
+            out.append((f.fp(t), f.fp(r), y))
+    return out
+
+
+def _contains(hay, needle):
+    i = hay.find(needle)
+    while i >= 0:
+        before = hay[i - 1] if i else '('
+        after = hay[i + len(needle)] if i + len(needle) < len(hay) else ')'
+        if not (before.isalnum() or before in '_#') and not (after.isalnum() or after in '_#'):
+            return True
+        i = hay.find(needle, i + 1)
+    return False
+
+
+def r04h(rep, F, functions=None):
+    rep.rule('R04h', 'selected item and compared cost agree: where if (isCostBetterThan(cost-of(X), B)) { SEL = X; ... } replaces a selected node '
+                     'SEL by the candidate X, the bound B is the cost of the node being replaced (cost-of(SEL), same accessor) or a running '
+                     'cost that the same branch re-assigns to cost-of(X) / cost-of(SEL).  Comparing against any other quantity (e.g. the '
+                     'incumbent that an earlier statement already lowered) lets the reported path and the reported cost belong to '
+                     'different nodes')
+    n = 0
+    for f in (functions or F.functions):
+        if not f.body or '/planners/' not in f.file or not f.file.endswith('.cpp'):
+            continue
+        for i in [x for x in f.walk() if x['k'] == 'IfStmt']:
+            at = []
+            atoms(f, i['cond'], True, at, False)
+            for (an, pol, disj) in at:
+                if an.get('callee') not in BETTER or not pol:
+                    continue
+                a = args(f, an)
+                A, B = f.fp(a[0]), f.fp(a[1])
+                sts = _stores(f, i['then'])
+                for (S, X, y) in sts:
+                    xs = f.strip(y['ch'][1])
+                    if xs is None or X == A or not _contains(A, X) or xs['k'] in ('IntegerLiteral', 'CXXBoolLiteralExpr', 'FloatingLiteral'):
+                        continue
+                    if len(X) < 3 or S == B:
+                        continue
+                    n += 1
+                    AS = A.replace(X, S)
+                    ok = B == AS or any(t == B and r in (A, AS) for (t, r, _) in sts)
+                    rep.add('R04h', f.name, 'select[%s:=%s]' % (nofp(S), nofp(X)), ok, f.where(an),
+                            'candidate cost %s is compared with %s' % (nofp(A), 'the cost of the replaced item' if B == AS else 'a running cost updated in the same branch')
+                            if ok else '%s replaces %s when %s is better than %s, which is neither the cost of %s nor a running cost updated with it: '
+                            'the selected node and the cost it is reported with can diverge' % (nofp(X), nofp(S), nofp(A), nofp(B), nofp(S)))
+    rep.require_count('R04h', 'cost-guarded selections', n, 5)
+
+
+# ---------------------------------------------------------------------------------------------------------------
+# R04i: provenance of the edge costs stored in the (forward) search trees
+EDGE_SINKS = {  # callee suffix -> index of the edge-cost argument
+    'aitstar::Vertex::setForwardParent': 1, 'eitstar::Vertex::setEdgeCost': 0,
+    'BITstar::addEdge': 1, 'BITstar::replaceParent': 1, 'BITstar::Vertex::addParent': 1,
+    'eitstar::State::setCurrentCostToCome': 0, 'aitstar::Vertex::setCostToComeFromStart': 0,
+}
+COMBINE = ('::combineCosts', 'EITstar::combine', '::betterCost')
+TREE_GETTERS = ('::getCostToComeFromStart', '::getCurrentCostToCome', '::getCost', '::getEdgeCost', '::getEdgeInCost', '::getForwardEdgeCost')
+ESTIMATES = re.compile(r'Heuristic|BestEstimate|costToGo|CostToGo|LowerBound|lowerBound|stateCost|::distance$')
+
+
+def _all_defs(f):
+    out = {}
+    for n in f.walk():
+        if n['k'] == 'DeclStmt':
+            for d in n.get('decls', []):
+                out.setdefault('%s#%d' % (d['name'], d['did']), [])
+                if d.get('init'):
+                    out['%s#%d' % (d['name'], d['did'])].append(d['init'])
+        elif (n['k'] == 'BinaryOperator' and n.get('op') == '=') or (n['k'] == 'CXXOperatorCallExpr' and n.get('oop') == '=' and len(n['ch']) == 2):
+            t = f.strip(n['ch'][0])
+            if t is None:
+                continue
+            if t['k'] == 'DeclRefExpr':
+                out.setdefault('%s#%d' % (t.get('name'), t.get('did')), []).append(n['ch'][1])
+            elif (t['k'] == 'CXXOperatorCallExpr' and t.get('oop') == '[]') or t['k'] == 'ArraySubscriptExpr':
+                b = f.strip(t['ch'][0])
+                if b is not None and b['k'] == 'DeclRefExpr':
+                    out.setdefault('%s#%d[]' % (b.get('name'), b.get('did')), []).append(n['ch'][1])
+    return out
+
+
+def cost_origins(F, f, nid, defs, seen, depth=0):
+    """set of leaf origins of a Cost-valued expression: 'true' (OptimizationObjective::motionCost), 'tree' (a cost already stored in the
+    tree), 'const' (identity / infinite), 'param:<i>', 'estimate:<callee>', 'other:<what>'"""
+    n = f.strip(nid)
+    if n is None or depth > 14:
+        return {'other:?'}
+    k = n['k']
+    if k in ('CXXConstructExpr', 'CXXTemporaryObjectExpr', 'CXXFunctionalCastExpr', 'CXXBindTemporaryExpr') and len(n['ch']) == 1:
+        return cost_origins(F, f, n['ch'][0], defs, seen, depth + 1)
+    if k == 'CXXDefaultArgExpr' or (k in ('CXXConstructExpr', 'CXXTemporaryObjectExpr') and not n['ch']):
+        return {'const'}
+    if k == 'ConditionalOperator':
+        return cost_origins(F, f, n['ch'][1], defs, seen, depth + 1) | cost_origins(F, f, n['ch'][2], defs, seen, depth + 1)
+    if k == 'DeclRefExpr':
+        kk = '%s#%d' % (n.get('name'), n.get('did'))
+        if n.get('dk') == 'Parm':
+            idx = [i for i, p in enumerate(f.params) if p['did'] == n.get('did')]
+            return {'param:%d' % idx[0]} if idx else {'other:param'}
+        if (f.key, kk) in seen:
+            return set()
+        seen = seen | {(f.key, kk)}
+        ds = defs.get(kk, [])
+        if not ds:
+            return {'other:undefined local ' + n.get('name', '?')}
+        out = set()
+        for d in ds:
+            out |= cost_origins(F, f, d, defs, seen, depth + 1)
+        return out
+    if (k == 'CXXOperatorCallExpr' and n.get('oop') == '[]') or k == 'ArraySubscriptExpr':
+        b = f.strip(n['ch'][0])
+        if b is not None and b['k'] == 'DeclRefExpr':
+            kk = '%s#%d[]' % (b.get('name'), b.get('did'))
+            if (f.key, kk) in seen:
+                return set()
+            out = set()
+            for d in defs.get(kk, []):
+                out |= cost_origins(F, f, d, defs, seen | {(f.key, kk)}, depth + 1)
+            return out or {'other:array never filled'}
+        return {'other:subscript'}
+    if k == 'MemberExpr':
+        if n.get('name') in ('cost', 'incCost', 'costToComeFromStart_', 'edgeCostFromForwardParent_', 'edgeCost_', 'currentCostToCome_'):
+            return {'tree'}
+        return {'other:field ' + str(n.get('name'))}
+    if k in ('CXXMemberCallExpr', 'CallExpr'):
+        cal = n.get('callee') or ''
+        if cal.endswith('OptimizationObjective::motionCost'):
+            return {'true'}
+        if any(cal.endswith(c) for c in COMBINE):
+            out = set()
+            for a in args(f, n):
+                an = f.strip(a)
+                if an is not None and (an.get('ty') or '').replace('const ', '').strip(' &').endswith('Cost'):
+                    out |= cost_origins(F, f, a, defs, seen, depth + 1)
+            return out or {'other:combine of nothing'}
+        if cal.endswith('::identityCost') or cal.endswith('::infiniteCost'):
+            return {'const'}
+        if any(cal.endswith(g) for g in TREE_GETTERS):
+            return {'tree'}
+        if ESTIMATES.search(cal):
+            return {'estimate:' + cal.split('::')[-1]}
+        # a repo wrapper: the origins of what it returns
+        out = set()
+        for g in F.by_name.get(cal, []):
+            if not g.body or (g.key, 'ret') in seen:
+                continue
+            gd = _all_defs(g)
+            for r in g.walk():
+                if r['k'] == 'ReturnStmt' and r['ch']:
+                    o = cost_origins(F, g, r['ch'][0], gd, seen | {(g.key, 'ret')}, depth + 1)
+                    out |= {x for x in o if not x.startswith('param:')} | {'other:wrapper parameter' for x in o if x.startswith('param:')}
+        return out or {'other:' + cal.split('::')[-1]}
+    return {'other:' + k}
+
+
+def r04i(rep, F):
+    rep.rule('R04i', 'edge costs stored in the search trees are true motion costs: the value given to an edge-cost sink (AIT* setForwardParent, '
+                     'EIT* setEdgeCost, BIT* addEdge / replaceParent / addParent, and every X->incCost = ... of the RRT*-family nodes) is, '
+                     'through locals, arrays filled in the same function, combineCosts, wrappers resolved by their return statements and '
+                     'pass-through parameters (whose call sites are then sinks themselves), the result of OptimizationObjective::motionCost '
+                     'or a cost already stored in the tree.  A heuristic / best-estimate / cost-to-go value at a sink is a violation: '
+                     'it is admissible (never worse than the truth) and would be reported as the solution cost')
+    recs = {name for name, rs in F.records.items() if {'parent', 'cost', 'incCost'} <= {fl['name'] for fl in rs[0].get('fields', [])}}
+    crecs = {name for name, rs in F.records.items() if {'parent', 'cost'} <= {fl['name'] for fl in rs[0].get('fields', [])}}
+    n = 0
+    for f in F.functions:
+        if not f.body or '/planners/' not in f.file:
+            continue
+        defs = None
+        sinks = []
+        for x in f.walk():
+            if x['k'] in ('CXXMemberCallExpr', 'CallExpr'):
+                for suf, idx in EDGE_SINKS.items():
+                    if (x.get('callee') or '').endswith(suf) and len(args(f, x)) > idx:
+                        sinks.append((suf.split('::')[-1], args(f, x)[idx], x))
+            elif (x['k'] == 'BinaryOperator' and x.get('op') == '=') or (x['k'] == 'CXXOperatorCallExpr' and x.get('oop') == '=' and len(x['ch']) == 2):
+                t = f.strip(x['ch'][0])
+                if t is not None and t['k'] == 'MemberExpr' and t.get('name') == 'incCost' and (t.get('q') or '').rsplit('::', 1)[0] in recs:
+                    sinks.append(('incCost', x['ch'][1], x))
+                elif t is not None and t['k'] == 'MemberExpr' and t.get('name') == 'cost' and (t.get('q') or '').rsplit('::', 1)[0] in crecs:
+                    sinks.append(('cost', x['ch'][1], x))
+        for (what, v, x) in sinks:
+            if defs is None:
+                defs = _all_defs(f)
+            o = cost_origins(F, f, v, defs, frozenset())
+            role = 'edge-cost:%s#%d' % (what, len([1 for ob in rep.obl if ob['rule'] == 'R04i' and ob['function'] == f.name]))
+            passthrough = {y for y in o if y.startswith('param:')}
+            if passthrough and not any(f.name.endswith(s) for s in EDGE_SINKS):
+                o = (o - passthrough) | {'other:parameter of a function that is not itself a sink'}
+            bad = sorted(y for y in o if y.startswith('estimate:'))
+            other = sorted(y for y in o if y.startswith('other:'))
+            if bad:
+                n += 1
+                rep.add('R04i', f.name, role, False, f.where(x), 'the edge cost stored here comes from %s, an estimate, not from motionCost: the '
+                        'tree (and the reported solution) carries a cost that can be better than the true cost of the path' % ', '.join(bad))
+            elif other:
+                rep.undecided('R04i', f.name, role, 'edge-cost provenance not resolved (%s)' % ', '.join(other))
+            else:
+                n += 1
+                rep.add('R04i', f.name, role, True, f.where(x), 'derived from ' + ', '.join(sorted(o)))
+    rep.require_count('R04i', 'edge-cost sinks with resolved provenance', n, 30)
+
+
 def run(rep):
     F = facts.load_units(UNITS)
     rep.units.update(UNITS)
@@ -758,3 +974,5 @@ def run(rep):
     r04d(rep, F)
     r04f(rep, F)
     r04g(rep, F)
+    r04h(rep, F)
+    r04i(rep, F)
